@@ -10,7 +10,7 @@ from harness.tunersim import Monitor, spy_on, ScriptBackend, LoopCallback, make_
 from props import c01
 
 
-def h_ckpt(sym, scheduler="pbt", W=2, T=3, K=1, delete=True, max_t=2, P=8, early_removal=False, E=5, max_fail=0, rungs=None):
+def h_ckpt(sym, scheduler="pbt", W=2, T=3, K=1, delete=True, max_t=2, P=8, early_removal=False, E=5, max_fail=0, rungs=None, brackets=None, sym_trials=None, eager=False):
     from syne_tune import StoppingCriterion
     from symx import stubs
     from syne_tune.config_space import uniform
@@ -20,7 +20,10 @@ def h_ckpt(sym, scheduler="pbt", W=2, T=3, K=1, delete=True, max_t=2, P=8, early
     def value_fn(tid, run, r):
         key = (tid, run, r)
         if key not in vals:
-            vals[key] = sym.real("m_%d_%d_%d" % key, -100, 100)
+            if sym_trials is not None and tid >= sym_trials:
+                vals[key] = float((tid * 7 + r * 3) % 11) + 0.01 * tid      # concrete table in general position
+            else:
+                vals[key] = sym.real("m_%d_%d_%d" % key, -100, 100)
         return vals[key]
 
     if scheduler == "pbt":
@@ -50,10 +53,18 @@ def h_ckpt(sym, scheduler="pbt", W=2, T=3, K=1, delete=True, max_t=2, P=8, early
             inner = make(SynchronousGeometricHyperbandScheduler, cs, metric="m", mode="min", resource_attr="r",
                          max_resource_attr="epochs", grace_period=1, reduction_factor=2, brackets=1, random_seed=0)
         R_of = lambda be, tid: be._trial_dict[tid].config["epochs"] if tid in be._trial_dict else 1
+    elif scheduler == "dehb":
+        from syne_tune.optimizer.schedulers.synchronous.hyperband_impl import GeometricDifferentialEvolutionHyperbandScheduler
+        stubs.shim_modules(["syne_tune.optimizer.schedulers.synchronous.hyperband_bracket", "syne_tune.optimizer.schedulers.synchronous.dehb",
+                            "syne_tune.optimizer.schedulers.synchronous.dehb_bracket"])
+        cs = {"x": uniform(0, 1), "epochs": max_t}
+        inner = make(GeometricDifferentialEvolutionHyperbandScheduler, cs, metric="m", mode="min", resource_attr="r", max_resource_attr="epochs",
+                     grace_period=1, reduction_factor=2, random_seed=0, **({"brackets": brackets} if brackets else {}))
+        R_of = lambda be, tid: be._trial_dict[tid].config["epochs"] if tid in be._trial_dict else 1
     else:
         raise AssertionError(scheduler)
     sch = spy_on(inner, mon)
-    be = ScriptBackend(sym, mon, R=max_t, K=K, J=0, max_fail=max_fail, Z=0, P=P, delete_checkpoints=delete, value_fn=value_fn, R_of=R_of)
+    be = ScriptBackend(sym, mon, R=max_t, K=K, J=0, max_fail=max_fail, Z=0, P=P, delete_checkpoints=delete, value_fn=value_fn, R_of=R_of, eager=eager)
     be.speculative_removal = early_removal
     cb = LoopCallback(be, mon)
     tuner = make_tuner(sym, sch, be, [cb], W, StoppingCriterion(max_num_trials_started=T, max_num_evaluations=E, max_wallclock_time=10 ** 6))
@@ -101,6 +112,9 @@ def obligations(tier):
                   dict(scheduler="promotion", W=2, T=2, K=1, delete=True, max_t=2, P=10, E=4, early_removal=True),
                   bounds=dict(W=2, trials="<=3", results="<=5", max_t=2, max_num_checkpoints=1, baseline="by_level"), goals=("end", "checkpoint-removed-early"),
                   split=(("k_p2_t0", (0, 1)), ("k_p2_t1", (0, 1)), ("end_p2_t0", (0, 1)), ("end_p2_t1", (0, 1))), budget_s=1800))
+    # DEHB: only trials of the first bracket are paused and resumed, all others are stopped; with fewer brackets than rung levels too
+    obs.append(Ob("C20.f[dehb,brackets=1,max_t=4,W=1,delete]", "props.c20:h_ckpt", dict(scheduler="dehb", W=1, T=8, K=1, delete=True, max_t=4, P=14, E=7, brackets=1, sym_trials=1, eager=True),
+                  bounds=dict(W=1, trials="<=8", results="<=7", max_t=4, brackets=1, metrics="symbolic for trial 0, concrete table for the others", workers="one report per poll (no schedule choice)"), goals=("end", "resume"), budget_s=1800))
     obs.append(Ob("C20.d[promotion,no-delete]", "props.c20:h_ckpt", dict(scheduler="promotion", W=2, T=2, K=1, delete=False, max_t=2, P=8),
                   bounds=dict(W=2, T=2, max_t=2, delete_checkpoints=False), goals=("end",), budget_s=1800))
     return obs
